@@ -208,6 +208,7 @@ def explore(run_a, run_b, n=4, path_budget=4096):
             try:
                 ra = ("val", result_term(run_a(x)))
             except xa.PathAbort:
+                todo.extend(env.alts)
                 continue
             except xa.HarnessError:
                 raise
@@ -216,6 +217,7 @@ def explore(run_a, run_b, n=4, path_budget=4096):
             try:
                 rb = ("val", result_term(run_b(x)))
             except xa.PathAbort:
+                todo.extend(env.alts)
                 continue
             except xa.HarnessError:
                 raise
